@@ -255,7 +255,8 @@ Definition best_effort (o : fsop) : bool :=
   end.
 
 (** [file::save] (file.rs 124-139): create (with parents), then write. *)
-Definition save_ops (p : path) (d : fdata) : list fsop := [OMkParents p; OCreateFile p; OWrite p (CData d)].
+Definition save_c (p : path) (c : fcontent) : list fsop := [OMkParents p; OCreateFile p; OWrite p c].
+Definition save_ops (p : path) (d : fdata) : list fsop := save_c p (CData d).
 
 (** Result of a run: the file system reached and whether the procedure returned [Ok]. *)
 Fixpoint run (ops : list fsop) (f : fs) : fs * bool :=
